@@ -15,7 +15,8 @@ pub fn string_error_optimization(source_unit: SourceUnit) -> HashSet<Loc> {
         None => return optimization_locations,
     };
 
-    if solidity_version.1 >= 8 && solidity_version.2 >= 4 {
+    //(major, minor, patch) tuples compare lexicographically
+    if solidity_version >= (0, 8, 4) {
         //Extract the target nodes from the source_unit
         let target_nodes = ast::extract_target_from_node(Target::FunctionCall, source_unit.into());
 
